@@ -160,6 +160,20 @@ M = [
     ('cbreader-ctx-dropped', 'C14', 'pysmi/reader/callback.py', "self._cbFun(mibname, self._cbCtx)", "self._cbFun(mibname, None)"),
     ('mibdump-json-suffix-mismatch', 'C20', 'scripts/mibdump.py', "fileWriter = FileWriter(dstDirectory).setOptions(suffix='.json')", "fileWriter = FileWriter(dstDirectory).setOptions(suffix='.js')"),
     ('mibdump-searcher-other-dir', 'C20', 'scripts/mibdump.py', "searchers = [PyFileSearcher(dstDirectory)]", "searchers = [PyFileSearcher(os.path.join(dstDirectory, 'x'))]"),
+    # ---- rules added after round 3
+    ('pywriter-compile-failure-keeps-file', 'C13', 'pysmi/writer/pyfile.py', "                if pyfile and os.access(pyfile, os.F_OK):\n                    os.unlink(pyfile)\n\n                raise error.PySmiWriterError('failure compiling", "                raise error.PySmiWriterError('failure compiling"),
+    ('pywriter-compile-failure-keeps-file-c20', 'C20', 'pysmi/writer/pyfile.py', "                if pyfile and os.access(pyfile, os.F_OK):\n                    os.unlink(pyfile)\n\n                raise error.PySmiWriterError('failure compiling", "                raise error.PySmiWriterError('failure compiling"),
+    ('maxaccess-only-with-texts', 'C15', I, "        if maxaccess:\n            outDict['maxaccess'] = maxaccess\n        if indexStr:", "        if maxaccess and self.genRules['text']:\n            outDict['maxaccess'] = maxaccess\n        if indexStr:"),
+    ('maxaccess-only-with-texts-c03', 'C03', I, "        if maxaccess:\n            outDict['maxaccess'] = maxaccess\n        if indexStr:", "        if maxaccess and self.genRules['text']:\n            outDict['maxaccess'] = maxaccess\n        if indexStr:"),
+    ('single-value-ranges-skipped', 'C05', I, "            ran['max'] = vmax\n            ranges.append(ran)", "            ran['max'] = vmax\n            if vmin != vmax:\n                ranges.append(ran)"),
+    ('revisions-newest-only', 'C03', I, "            revisions.append(revision)\n", "            revisions.append(revision)\n            break\n"),
+    ('regsym-args-swapped', 'C03', I, "        outDict['class'] = 'objectidentity'\n\n        self.regSym(name, outDict, parentOid)", "        outDict['class'] = 'objectidentity'\n\n        self.regSym(outDict, name, parentOid)"),
+    ('ir-type-name-untranslated', 'C16', I, "        outDict['type'] = objType\n        outDict['class'] = 'type'\n\n        if subtype:\n            outDict['constraints'] = subtype\n\n        return 'scalar', outDict", "        outDict['type'] = data[0]\n        outDict['class'] = 'type'\n\n        if subtype:\n            outDict['constraints'] = subtype\n\n        return 'scalar', outDict"),
+    ('p-error-strips-value', 'C11', P, '"Bad grammar near token type %s, value %s" % (p.type, p.value)', '"Bad grammar near token type %s, value %s" % (p.type, p.value.strip())'),
+    ('zip-path-not-decoded', 'C14', 'pysmi/reader/url.py', "readers.append(ZipReader(filePath).setOptions(**options))", "readers.append(ZipReader(mibSource.path).setOptions(**options))"),
+    ('hex-guard-off-by-one', 'C05', I, "len(defval) > 3 and", "len(defval) >= 3 and"),
+    ('compliance-groups-dedup', 'C06', I, "        return compliances\n", "        return sorted(set(compliances))\n"),
+    ('toDel-inline-remove', 'C16', S, "                        toDel.append((module, symbol))", "                        imports[module].remove(symbol)"),
 ]
 
 
